@@ -226,12 +226,15 @@ Definition clause_check (c : case) : bool := negb (c_check_failed c).
 (* B2: files whose data is fully available are kept unchanged; snapshots with a loadable root survive *)
 Definition good_file (sizes : list (id * N)) (x : pitem) : bool :=
   match snd x with IFile cn s => forallb (has sizes) cn && (s =? sumsz sizes cn) | _ => false end.
+(* what C34_intact_files_unchanged obliges the rewrite to keep: complete files, directories, special files *)
+Definition must_keep (sizes : list (id * N)) (x : pitem) : bool :=
+  good_file sizes x || match snd x with IDir | IOther => true | _ => false end.
 Definition clause_kept (c : case) : bool :=
   forallb (fun s =>
     match trav (c_store c) (c_sizes c) false 64 [] (so_root s) with
     | ROk orig =>
         match so_out s with
-        | OReplaced l => forallb (fun x => implb (good_file (c_sizes c) x) (existsb (pitem_eqb x) l)) orig
+        | OReplaced l => forallb (fun x => implb (must_keep (c_sizes c) x) (existsb (pitem_eqb x) l)) orig
         | OUnmodified => true
         | _ => false
         end
@@ -264,7 +267,7 @@ Definition model_snaps_ok (c : case) : bool :=
 (* codes: 0 ok; 1 model <> implementation (index after repair packs, per-snapshot outcome, unexpected
    error); 2 readable blob not salvaged / loadable blob lost; 3 operation order (damaged pack or old
    snapshot removed too early, foreign pack removed); 4 check fails after the repairs; 5 a file whose
-   data is fully available was changed or dropped *)
+   data is fully available, a directory or a special file was changed or dropped *)
 Definition check_case (c : case) : nat :=
   if negb (clause_salvage c && clause_noloss c) then 2%nat
   else if negb (clause_order_a c && clause_order_b c) then 3%nat
